@@ -295,4 +295,33 @@ theorem make_move_refines {T : Tables} (hT : TablesOK T) {b : Board} (hc : Core 
     exact rights_agree hrs hsrc hdc d
   · rw [hepf]; exact g3
 
+theorem Pos.ext' {p q : Pos} (h1 : p.board = q.board) (h2 : p.stm = q.stm) (h3 : p.castleK = q.castleK)
+    (h4 : p.castleQ = q.castleQ) (h5 : p.ep = q.ep) : p = q := by
+  cases p; cases q
+  simp only at h1 h2 h3 h4 h5
+  subst h1 h2 h3 h4 h5
+  rfl
+
+theorem abs_eq_of_fields {b₁ b₂ : Board} (hcont : ∀ s, b₁.content s = b₂.content s) (hs : b₁.stm = b₂.stm)
+    (hw : b₁.wcr = b₂.wcr) (hb : b₁.bcr = b₂.bcr) (he : b₁.ep = b₂.ep) : b₁.abs = b₂.abs := by
+  have hcr : ∀ c, b₁.castleRights c = b₂.castleRights c := castleRights_of_fields hw hb
+  exact Pos.ext' (funext hcont) hs (funext fun c => congrArg CastleRights.ks (hcr c))
+    (funext fun c => congrArg CastleRights.qs (hcr c)) he
+
+/-- the refinement as one equation between positions -/
+theorem make_move_abs {T : Tables} (hT : TablesOK T) {b : Board} (hc : Core T b) {m : Move}
+    (hpl : pseudoLegal b.abs m = true) (hep : b.abs.EpSane) (hrs : b.abs.RightsSane) :
+    ∃ b', b.makeMoveNew T m = some b' ∧ Core T b' ∧ b'.abs = norm (apply b.abs m) := by
+  obtain ⟨b', h1, h2, h3, h4, h5, h6⟩ := make_move_refines hT hc hpl hep hrs
+  refine ⟨b', h1, h2, ?_⟩
+  exact Pos.ext' h3 h4 (funext fun c => (h5 c).1) (funext fun c => (h5 c).2) h6
+
+/-- `none` (the `unwrap()` panic) exactly on an empty source square -/
+theorem makeMoveNew_none_iff (T : Tables) (b : Board) (m : Move) :
+    b.makeMoveNew T m = none ↔ b.pieceOn m.src = none := by
+  rw [makeMoveNew_eq]
+  cases b.pieceOn m.src with
+  | none => exact ⟨fun _ => rfl, fun _ => rfl⟩
+  | some pc => exact ⟨fun h => (by cases h), fun h => (by cases h)⟩
+
 end Chess
